@@ -1,12 +1,12 @@
 SPECIFICATION Spec
-CONSTANT Input <- MCInput3
-CONSTANT Cuts <- MCCuts3
+CONSTANT Input <- MCInput2
+CONSTANT Cuts <- MCCuts2
 CONSTANT WSet = {0, 2}
 CONSTANT CfgSet <- MCCfgSetQ
 CONSTANT Skew = 2
 CONSTANT SecMs = 2
 CONSTANT TMax = 3
 CONSTANT DMutant = "none"
-CONSTANT DedupMutant = "none"
+CONSTANT DedupMutant = "push_always"
 INVARIANT AbsChecked
 CHECK_DEADLOCK FALSE
